@@ -841,6 +841,45 @@ SPELL_BASES = [
 ]
 
 
+# a history pseudo-state's default `target` is resolved at its own call site (`_resolve_history_target`), not where
+# transition targets are: every spelling of it, on a history child of a top-level and of a nested compound state,
+# shallow and deep, entered before anything was recorded (and again afterwards)
+HIST_DEFAULT_BASE = {"id": "m", "initial": "start", "states": {
+    "start": {"on": {"GO": "#m.box.hist", "GO2": "#m.box.inner.hh"}},
+    "box": {"initial": "low", "on": {"BACK": "#m.start"}, "entry": "enBox",
+            "states": {"low": {"on": {"E": "high"}}, "high": {"id": "hi", "entry": "enHigh"},
+                       "inner": {"initial": "u", "entry": "enInner",
+                                 "states": {"u": {"on": {"E": "v"}}, "v": {"id": "vv", "entry": "enV"}, "w": {},
+                                            "hh": {"type": "history", "history": "deep", "target": "#m.box.inner.v"}}},
+                       "hist": {"type": "history", "history": "shallow", "target": "#m.box.high"}}}}}
+HIST_DEFAULT_SITES = [(["box", "hist"], ["box", "high"]), (["box", "hist"], ["box", "inner", "v"]), (["box", "hist"], ["box", "inner"]),
+                      (["box", "inner", "hh"], ["box", "inner", "v"]), (["box", "inner", "hh"], ["box", "inner", "w"])]
+
+
+def history_default_pairs():
+    """[(original case, rewritten case, applied)]: the default target written '#m.<path>' vs every other spelling"""
+    out = []
+    cids = {("box", "high"): "hi", ("box", "inner", "v"): "vv"}
+    for deep in (False, True):
+        for src, p in HIST_DEFAULT_SITES:
+            base = copy.deepcopy(HIST_DEFAULT_BASE)
+            for hp in (["box", "hist"], ["box", "inner", "hh"]):
+                _node_at(base, hp)["history"] = "deep" if deep else "shallow"
+            _node_at(base, src)["target"] = "#m." + ".".join(p)
+            cid = (p, cids[tuple(p)]) if tuple(p) in cids else None
+            for kind, s in target_spellings(base, src, p, cid):
+                if kind == "abs" or ref_resolve(base, src, s) != p:
+                    continue
+                new = copy.deepcopy(base)
+                _node_at(new, src)["target"] = s
+                ident = f"histdefault-{'deep' if deep else 'shallow'}-{'.'.join(src)}-{kind}-{s}"
+                c = {"id": ident, "machine": base, "guards": {}, "events": ["GO", "BACK", "GO2", "BACK", "GO", "E", "BACK", "GO2", "BACK", "GO"]}
+                c2 = dict(c)
+                c2["machine"] = new
+                out.append((c, c2, {"history-default-" + kind: 1}))
+    return out
+
+
 def _spell_worker(args):
     flavor, case = args[:2]
     timeout = args[2] if len(args) > 2 else 8
@@ -900,6 +939,10 @@ def c18_spellings(tier, seed):
             c2["int_delay_keys"] = True
             applied["delay-int-keys"] = applied.get("delay-int-keys", 0) + 1
         for k, v in applied.items():
+            kind_hist[k] += 1
+        pairs.append((c, c2, applied))
+    for c, c2, applied in history_default_pairs():
+        for k in applied:
             kind_hist[k] += 1
         pairs.append((c, c2, applied))
     jobs = []
